@@ -77,42 +77,6 @@ Proof.
   apply nth_error_nth. apply map_nth_error. exact H.
 Qed.
 
-(* ---- what each plan should evaluate on ------------------------------------------------------- *)
-
-Definition group_id (cmd : pcmd) : bytes := fst (FromCommandChannel (c_chan cmd)).
-
-(* the permission channel id checkPersonSendPermissionsBatch works with *)
-Definition person_batch_normalized (cmd : pcmd) : option bytes :=
-  let src := fst (FromCommandChannel (c_chan cmd)) in
-  if c_norm cmd then NormalizePersonChannel (c_from cmd) src else Some src.
-Definition person_batch_cid (cmd : pcmd) (nid : bytes) : bytes :=
-  if snd (FromCommandChannel (c_chan cmd)) then ToCommandChannel nid else nid.
-Definition person_batch_id (cmd : pcmd) : option bytes :=
-  match person_batch_normalized cmd with
-  | None => None
-  | Some nid => Some (fst (FromCommandChannel (person_batch_cid cmd nid)))
-  end.
-
-Definition facts_batch (rd : reader) (cfg : pcfg) (cmd : pcmd) : facts :=
-  if c_type cmd =? channelTypePerson
-  then facts_at rd cfg cmd (is_none (person_batch_id cmd)) (id_or_nil (person_batch_id cmd))
-  else facts_at rd cfg cmd false (group_id cmd).
-
-(* the channel id of the outcome *)
-Definition batch_out (cmd : pcmd) : bytes :=
-  if c_type cmd =? channelTypePerson then
-    match person_batch_normalized cmd with
-    | None => fst (FromCommandChannel (c_chan cmd))
-    | Some nid => person_batch_cid cmd nid
-    end
-  else c_chan cmd.
-
-(* the outcome of one SendBatch item on an App with a PermissionBatchStore *)
-Definition batch_outcome1 (rd : reader) (cfg : pcfg) (cmd : pcmd) : outcome :=
-  if batched_group cmd || batched_person cmd
-  then (batch_out cmd, decide_batch (facts_batch rd cfg cmd))
-  else single_outcome rd cfg cmd.
-
 (* ---- group plans ------------------------------------------------------------------------------- *)
 
 Ltac step_add E :=
